@@ -1,4 +1,5 @@
 import PySMT.Proofs.WalkerMore
+import PySMT.Proofs.C15ParserSession
 
 /-!
 # C15 — a failing call leaves no trace
@@ -10,8 +11,9 @@ substitution deep in a DAG, unsupported operator), and it may raise at the k-th 
 the trace of the earlier invocations) -- injected faults at every point of the traversal.  Graph, callbacks, initial state, node,
 budget of the failing call: all universally quantified.
 
-Not covered by these theorems (covered by the correspondence run only): the SMT-LIB parser's caches, scripts and
-solver objects.
+The SMT-LIB parser objects (`get_script`, `get_command_generator`: cache, journal, `_reset`, `rollback`) are the second
+part of this file (after `end PySMT.C15`, model `Impl/ParserSession.lean`). Not covered by theorems (covered by the
+correspondence run only): scripts and solver objects.
 -/
 
 namespace PySMT.C15
@@ -96,5 +98,148 @@ example : (createNode dag (fun _ => tc) 18 3 mgr0).1 = .error .illTyped := rfl
 example : (createNode dag (fun _ => tc) 18 3 mgr0).2.table = [3] := by decide
 
 end example_
+
+end PySMT.C15
+
+/-!
+# C15, second part — SMT-LIB parser objects (`SmtLibParser.get_script`, `get_command_generator`)
+
+Model: `PySMT/Impl/ParserSession.lean` — the *mutable* side of `pysmt/smtlib/parser/parser.py` on top of the functional
+model `Impl/Parser.lean` (C08): the state `St` of a parser object and of its environment
+(`keys` = the binding stacks of `SmtLibExecutionCache`, `bound`/`unbound` = its journal, `annots`, `intArith` = `self.logic`,
+`mgr` = the environment's formula manager: symbol table, fresh-name counter, sorts), `get_expression` executed with
+`bind`/`unbind` *in place* (`rdValS`; an exception returns the state as it is at that moment), `get_command`
+= `checkpoint` / handler / `rollback` (`cmdS`), `get_command_generator` (`getCommands`), `_reset`, `get_script`
+(`getScript`), `SmtLibParser(env)` (`newParser σ`). `lc` switches the literal cache of `atom` on (the code) or off (what
+`Impl/Parser.lean` models); every theorem below holds for both, `session_is_model_nolc` for `lc = false`.
+
+* `session_is_model_nolc`, `command_is_model_nolc` — the session model computes the C08 model (`Parser.cmd`, `Parser.script`,
+  which the differential run of C08 compares with the real `get_script`): same commands or same exception, same environment
+  afterwards. So the theorems are about the model that is tied to the code, not about a second, free-standing one.
+* `command_fail_rollback` — whatever the command and wherever it fails (any nesting depth of `let`/quantifier/`define-fun`
+  binders, any number of re-bindings of one name, literals cached on the way): after `get_command`'s `rollback`, which looks
+  at the journal only, the binding stacks are *equal* to the stacks before the command, the logic is unchanged, the journal is
+  empty, and `rollback` never pops an empty stack. `command_fail_after_prefix`: the same for a command that fails after any
+  prefix of successfully read commands. `command_fail_later_commands`: every later sequence of commands on the same parser object
+  returns what it returns from the state before the failing command *given the formula manager (and annotation store) the
+  failing command left*; `command_fail_later_commands_pure`: exactly what it returns without the failing command when that
+  command created no symbol and stored no annotation.
+* `parser_fail_reset` — after a failing `get_script` (at any command, for any reason; in fact after anything), `get_script s₂`
+  returns what it returns on a NEW parser object of the same environment: `_reset` replaces every component of the parser's
+  state (`keys`, journal, `annots`, logic), and the only thing `get_script` reads besides is the environment's formula manager.
+  "Same environment" = same `MgrSt` (symbols, fresh counter, declared sorts), which is shared by all parser objects of the
+  environment and persists. `parser_script_function_of_manager`: the outcome of `get_script` is a function of that state.
+* NOT a theorem, and false on the code (finding F43 and its symbol-table variant): "… returns what it would have returned had
+  the failing script never been read". `parser_fail_reset_unrestricted_false` is the decided witness: the failing
+  `(assert (forall ((w Int)) zz))` leaves `w : Int` in the formula manager, after which `(declare-fun w () Real)` is a type
+  error; `failing_define_fun_advances_fresh_counter` is F43 itself. `parser_fail_reset_same_manager` is the restricted version:
+  when the failing script left the manager as it found it, the twin equality holds.
+* not restored by `rollback`, in the model as in the code (checked by running the real parser): `annots` (the annotations a
+  failing command stored stay in `cache.annotations`; no call returns them — `get_script` hands out the store only after
+  `_reset` and a complete successful reading) and `mgr` (above).
+-/
+namespace PySMT.C15
+open PySMT PySMT.Parser PySMT.ParserSession
+
+/-- **The session model computes the C08 parser model** (no literal cache): one command … -/
+theorem command_is_model_nolc (st : St) (c : Sexp) :
+    cmd st.env c = (match cmdS false st c with
+      | (.ok k, st') => .ok (st'.env, k)
+      | (.error e, _) => .error e) := by
+  rw [cmdS_ref]; rcases cmdS false st c with ⟨_ | _, _⟩ <;> rfl
+
+/-- … and `get_script`, from any state of the parser object. -/
+theorem session_is_model_nolc (st : St) (cs : List Sexp) :
+    script { PEnv.init with mgr := st.mgr } cs = (getScript false st cs).1.map (·.1) :=
+  getScript_ref st cs
+
+/-- **A failing command is rolled back.** -/
+theorem command_fail_rollback (lc : Bool) (st : St) (c : Sexp) (e : Err) (st' : St) (h : cmdS lc st c = (.error e, st')) :
+    st'.keys = st.keys ∧ st'.intArith = st.intArith ∧
+      (if isCommand c then st'.bound = [] ∧ st'.unbound = [] else st' = st) :=
+  cmdS_fail_restores lc st c e st' h
+
+/-- what `rollback` removes: the exception left the old stacks with the pending bindings on top (the state of the code
+before commit 30febd7) … -/
+theorem command_fail_pending (lc : Bool) (st : St) (c : Sexp) (e : Err) (st' : St)
+    (h : cmdNoRollbackS lc st c = (.error e, st')) : ∃ P, st'.keys = P ++ st.keys :=
+  cmdNoRollbackS_pending lc st c e st' h
+
+/-- … and it pops no empty stack (`keys[name].pop()` cannot raise inside `rollback`). -/
+theorem rollback_no_underflow (lc : Bool) (st : St) (nm : String) (args : List Sexp) (e : Err)
+    (h : (cmdNamedS lc st.checkpoint nm args).1 = .error e) (n : String) :
+    pendingCount (cmdNamedS lc st.checkpoint nm args).2 n ≤ cnt n (cmdNamedS lc st.checkpoint nm args).2.keys :=
+  cmdS_rollback_no_underflow lc st nm args e h n
+
+/-- **… after any prefix of successfully read commands** the generator stops at the failing command with the binding
+stacks and the logic the prefix left. -/
+theorem command_fail_after_prefix (lc : Bool) (st0 : St) (pre : List Sexp) (c : Sexp) (rest : List Sexp)
+    (hpre : (getCommands lc st0 pre).1.err = none) (e : Err) (st' : St)
+    (hfail : cmdS lc (getCommands lc st0 pre).2 c = (.error e, st')) :
+    (getCommands lc st0 (pre ++ c :: rest)).1.err = some e ∧ (getCommands lc st0 (pre ++ c :: rest)).2 = st' ∧
+      st'.keys = (getCommands lc st0 pre).2.keys ∧ st'.intArith = (getCommands lc st0 pre).2.intArith :=
+  fail_after_prefix lc st0 pre c rest hpre e st' hfail
+
+/-- **Later commands read the same meanings**, given the formula manager and annotation store the failing command left. -/
+theorem command_fail_later_commands (lc : Bool) (st : St) (c : Sexp) (e : Err) (st' : St)
+    (h : cmdS lc st c = (.error e, st')) (cs : List Sexp) :
+    (getCommands lc st' cs).1 = (getCommands lc { st with mgr := st'.mgr, annots := st'.annots } cs).1 :=
+  command_fail_probe_eq lc st c e st' h cs
+
+theorem command_fail_later_commands_pure (lc : Bool) (st : St) (c : Sexp) (e : Err) (st' : St)
+    (h : cmdS lc st c = (.error e, st')) (hm : st'.mgr = st.mgr) (ha : st'.annots = st.annots) (cs : List Sexp) :
+    (getCommands lc st' cs).1 = (getCommands lc st cs).1 :=
+  command_fail_probe_eq_pure lc st c e st' h hm ha cs
+
+/-- **After a failing `get_script`, `get_script` behaves as on a new parser object of the same environment**
+(outcome and state afterwards). -/
+theorem parser_fail_reset (lc : Bool) (st0 : St) (s₁ : List Sexp) (e : Err) (st₁ : St)
+    (_hfail : getScript lc st0 s₁ = (.error e, st₁)) (s₂ : List Sexp) :
+    getScript lc st₁ s₂ = getScript lc (newParser st₁.mgr) s₂ :=
+  getScript_new lc st₁ s₂
+
+/-- the outcome of `get_script` is a function of the state of the environment's formula manager -/
+theorem parser_script_function_of_manager (lc : Bool) (st : St) (cs : List Sexp) :
+    (getScript lc st cs).1 = scriptOn lc st.mgr cs :=
+  getScript_scriptOn lc st cs
+
+/-- the restricted twin statement: a failing script that left the formula manager as it found it is invisible -/
+theorem parser_fail_reset_same_manager (lc : Bool) (st0 : St) (s₁ : List Sexp) (e : Err) (st₁ : St)
+    (_hfail : getScript lc st0 s₁ = (.error e, st₁)) (hm : st₁.mgr = st0.mgr) (s₂ : List Sexp) :
+    getScript lc st₁ s₂ = getScript lc (newParser st0.mgr) s₂ := by
+  rw [getScript_new, hm]
+
+/-- **The unrestricted twin statement is false** (F43, symbol-table variant): see the header. -/
+theorem parser_fail_reset_unrestricted_false :
+    Ex.isOk (getScript true (newParser {}) [Ex.badQ]).1 = false ∧
+    Ex.errOf (getScript true (getScript true (newParser {}) [Ex.badQ]).2 [Ex.declW]).1 = some .type ∧
+    Ex.isOk (getScript true (newParser {}) [Ex.declW]).1 = true :=
+  ex_history_dependence
+
+/-- F43 in the model: the failing `(define-fun g ((z Int)) Int (zz))` has created `__z0` and advanced the counter -/
+theorem failing_define_fun_advances_fresh_counter :
+    Ex.isOk (getScript true (newParser {}) [Ex.badD]).1 = false ∧
+    (getScript true (newParser {}) [Ex.badD]).2.mgr.fresh = 1 ∧
+    (getScript true (newParser {}) [Ex.badD]).2.mgr.symbols.map (·.1) = ["__z0"] :=
+  ex_fresh_counter
+
+/-! ### Non-vacuity: `(declare-fun y () Int)`, then the failing
+`(assert (let ((y 1)) (let ((y 2)) (let ((x y)) zz))))`, then the probe `(get-value (y))` -/
+
+-- the command fails under three open binders, two of which re-bind the declared `y`; the literals are cached on the way
+example : (cmdS true Ex.st1 Ex.bad).1.toBool = false ∧
+    (cmdNoRollbackS true Ex.st1 Ex.bad).2.keys.map (·.1) = ["x", "y", "2", "y", "1", "y", "true", "false"] ∧
+    (cmdNoRollbackS true Ex.st1 Ex.bad).2.bound = ["x", "y", "2", "y", "1"] := ex_bad_fails
+-- after the rollback the stacks are those before the command
+example : (cmdS true Ex.st1 Ex.bad).2.keys.map (·.1) = ["y", "true", "false"] := ex_bad_restored.2
+-- the probe reads the declared symbol, as without the failing command; without `rollback` (F42) it read the numeral 2
+example : Ex.probeTerm (getCommands true (cmdS true Ex.st1 Ex.bad).2 [Ex.probe]) = some (Term.var "y" .int) ∧
+    Ex.probeTerm (getCommands true Ex.st1 [Ex.probe]) = some (Term.var "y" .int) ∧
+    Ex.probeTerm (getCommands true (cmdNoRollbackS true Ex.st1 Ex.bad).2 [Ex.probe]) = some (Term.int 2) := ex_probe
+-- the hypothesis of `parser_fail_reset` is satisfiable: the same failing text as a script
+example : ∃ e st₁, getScript true (newParser {}) [Ex.declY, Ex.bad] = (.error e, st₁) :=
+  ⟨_, _, rfl⟩
+-- … and so is the one of `command_fail_after_prefix`
+example : (getCommands true (newParser {}) [Ex.declY]).1.err = none := by decide +kernel
 
 end PySMT.C15
